@@ -59,6 +59,11 @@ cfg('cg-term-cap-only', '{#BB=[>][#B][<][>A],#SC=[<A][#S][>A][$A],#CAP=[$B][#T]}
 # a full square conditional table: entries for descriptors that are not complementary to the chosen site must be ignored
 cfg('cg-fullmatrix', '{#A=[$][#X][>],#B=[<][#Y][$],#C=[>][#Z][<]}', {'$': 1, '>': 1, '<': 1}, masses={'A': 1, 'B': 1, 'C': 1},
     freact={k: {'$': 1.0, '>': 1.0, '<': 1.0} for k in ('$', '>', '<')}, targets=(1, 2))
+cfg('cg-mixed-graphs', '{#A=[$][#X][#Y][$],#B=[$][#Z][>],#C=[<][#W][$]}', {'$': 1, '>': 1, '<': 0.5},
+    masses={'A': 1, 'B': 1, 'C': 1}, targets=(1, 2))
+CONFIGS['cg-mixed-graphs']['via'] = 'graphs-rev'
+cfg('aa-dir-graphs', '{#PEO=[>]COC[<],#PS=[>]CC[<]c1ccccc1}', {'>': 0.5, '<': 0.5}, all_atom=True, targets=(1, 50))
+CONFIGS['aa-dir-graphs']['via'] = 'graphs-rev'
 cfg('cg-four', '{#A=[$][#X][$],#B=[>][#Y][<],#C=[$][#Z][>],#D=[<][#W]}', {'$': 1, '>': 1, '<': 1},
     masses={'A': 1, 'B': 1, 'C': 1, 'D': 1}, targets=(1, 2), quick=False)
 cfg('aa-pe', '{#PE=[$]CC[$],#OH=[$]O}', {'$': 1}, all_atom=True, targets=(1, 30))
@@ -83,6 +88,20 @@ def make_sampler(c, seed=1):
         kw['terminal_bonds'] = list(c['terminals'])
     if c['masses']:
         kw['fragment_masses'] = dict(c['masses'])
+    if c.get('via') == 'graphs-rev':
+        # the constructor that takes fragment graphs; the graphs list their nodes and edges in reverse order
+        # (graphs that come from elsewhere need not be stored in ascending key order)
+        import networkx as nx
+        from cgsmiles.read_fragments import read_fragments
+        lib = {}
+        for name, g in read_fragments(c['frag'], all_atom=c['all_atom']).items():
+            h = nx.Graph()
+            for n in sorted(g.nodes, reverse=True):
+                h.add_node(n, **g.nodes[n])
+            for a, b, d in sorted(g.edges(data=True), key=lambda e: (e[0], e[1]), reverse=True):
+                h.add_edge(b, a, **d)
+            lib[name] = h
+        return MoleculeSampler(lib, **kw)
     return MoleculeSampler.from_fragment_string(c['frag'], **kw)
 
 
@@ -336,6 +355,12 @@ def run_task(task, R, oracle='wellformed'):
             s2, m2, e2 = run_path(c, task['target'], taken, ch2)
             if e2 is not None or dump(m2) != dump(mol) or ch2.taken != taken:
                 v = bad('replay-not-deterministic', None, {'config': task['config'], 'path': taken})
+                R.record(inp, v)
+                # executions are not a function of the schedule (something survives from one execution to the next):
+                # nothing explored after this point would be believable, stop this tree
+                R.cap('config %s target %s: exploration stopped at the first non-reproducible execution' % (task['config'], task['target']))
+                stats = None
+                break
         R.record(inp, v)
     if stats:
         R.states += stats['points'] + 1
@@ -371,6 +396,15 @@ def run_history(task, R, c):
     library must be left untouched"""
     ch = own.Chooser()
     paths = []
+    # the default path twice on fresh samplers: if that is not reproducible no history can be judged (and the
+    # exploration below would not terminate in reasonable time when executions accumulate state)
+    s_a, m_a, e_a = run_path(c, task['target'], [], ch)
+    s_b, m_b, e_b = run_path(c, task['target'], [], ch)
+    if (m_a is None) != (m_b is None) or (m_a is not None and dump(m_a) != dump(m_b)):
+        R.record({'kind': 'sampler', 'config': task['config'], 'target': task['target'], 'path': []},
+                 bad('replay-not-deterministic', None, {'config': task['config'], 'path': []}))
+        R.cap('history exploration of %s skipped: executions are not reproducible' % task['config'])
+        return
 
     def run(prefix):
         sampler, mol, err = run_path(c, task['target'], prefix, ch)
